@@ -188,15 +188,23 @@ def handle_krig(c):
     D2 = np.square(s.X[:, None, :] - s.X[None, :, :])
     R = np.exp(-np.einsum('k,ijk->ij', th, D2))
     resid = float(np.max(np.abs(R @ s.alpha - s.Y)))
-    if resid > 1e-6 * max(1.0, float(np.max(np.abs(s.Y)))):
-        ok, msg = False, 'Kriging(nugget=0): residual of the solve |R alpha - Y| = %g' % resid
+    condR = float(np.linalg.cond(R))
+    sig = 'kriging'
+    certified = resid <= 1e-6 * max(1.0, float(np.max(np.abs(s.Y))))
+    # (the residual only certifies the premise R alpha = Y of theorem C28_kriging_interpolates for this
+    #  case; Kriging's regularised SVD solve need not meet it on ill-conditioned training sets.  The
+    #  property itself is the direct test below: training outputs are returned at training inputs.)
     for i in range(len(x)):
         if not ok:
             break
         p = np.ravel(s.predict(x[i].copy()))
         if np.max(np.abs(p - y[i])) > 1e-5 * yr:
-            ok, msg = False, 'Kriging(nugget=0) at training input %s returns %r, training output %r' % (
-                x[i].tolist(), p.tolist(), y[i].tolist())
+            ok, msg = False, 'Kriging(nugget=0) at training input %s returns %r, training output %r (cond(R) = %.3g)' % (
+                x[i].tolist(), p.tolist(), y[i].tolist(), condR)
+            # Kriging solves R alpha = Y by an SVD with Tikhonov damping h = 1e-8*S[0] ("significantly more
+            # robust"): when the likelihood-optimal thetas make R ill-conditioned the surrogate does not
+            # interpolate.  Recorded as a known finding only in that regime; elsewhere it is a new violation.
+            sig = 'kriging-tikhonov-ill-conditioned' if condR > 1e5 else 'kriging'
     if ok:
         for qp in c['queries']:
             xq = np.array([float(fr(v)) for v in qp])
@@ -206,7 +214,7 @@ def handle_krig(c):
                 ok, msg = False, 'Kriging linearize at %s is %r, difference quotient of predict %r' % (
                     xq.tolist(), jac.tolist(), d.tolist())
                 break
-    return {'res': '__none__', 'ok': ok, 'msg': msg, 'sig': 'kriging', 'kind': 'krig/%dD' % n}
+    return {'res': '__none__', 'ok': ok, 'msg': msg, 'sig': sig, 'kind': 'krig/%dD%s' % (n, '' if certified else '/solve-not-certified')}
 
 
 def make_surrogate(name):
